@@ -32,7 +32,8 @@ def corpus(tier):
     out = []
     thorough = tier == 'thorough'
     hsets = [[HDRS[0]], [HDRS[0], HDRS[2]], [HDRS[0], HDRS[1], HDRS[3]], [HDRS[0], HDRS[6], HDRS[7]],
-             [HDRS[0], HDRS[4], HDRS[5]], [HDRS[0], HDRS[8], HDRS[9], HDRS[10]]]
+             [HDRS[0], HDRS[4], HDRS[5]], [HDRS[0], HDRS[8], HDRS[9], HDRS[10]],
+             [HDRS[0], HDRS[1], HDRS[7], HDRS[6]]]
     if thorough:
         hsets += [[HDRS[0]] + list(c) for c in itertools.combinations(HDRS[1:], 2)]
     for mi, m in enumerate(METHODS):
@@ -91,7 +92,7 @@ def scenarios(tier):
             fa = ['--threadless'] + (['--disable-headers', dis] if dis else [])
             for pos in ('first', 'second'):
                 pks = packings(m.raw, tier)
-                if pos == 'second' and tier == 'quick':
+                if pos == 'second' and tier == 'quick' and (m.framing != 'cl' or len(m.raw) > 160):
                     pks = pks[:2]
                 for pname, pieces in pks:
                     script = []
